@@ -7,9 +7,9 @@ from props import lexcommon as LC
 from props import luagen
 
 ID = 'C06'
-GEN_FILES = ['T_lexer']
+GEN_FILES = ['T_lexer', 'T_pins_lexer', 'T_pins_luawriter']
 COQ_PROPERTY = 'theories/Properties/C06.vo'
-COQ_EXTRA = []
+COQ_EXTRA = ['theories/Proofs/LexerPins.vo']
 MODEL = ('ExC06', 'c06_main.ml')
 MONITOR = ('MonC06', 'c06_mon_main.ml')
 RULE = ('one evaluation = one source text, lexed and written back by the implementation with the default writer, as a '
